@@ -126,3 +126,31 @@ MUTANTS += [
     ("iter_config: falsy option values are dropped from the export", C, "                try:\n                    value = context_options[key][cat]\n                except KeyError:  # noqa: PERF203\n                    pass\n                else:\n", "                value = context_options[key].get(cat)\n                if value:\n", "refute", "iter_config"),
     ("iter_config: category scheme options exported under the default category", C, "                        yield (cat, scheme, key), kwds[key]", "                        yield (None, scheme, key), kwds[key]", "refute", "iter_config"),
 ]
+
+
+# ---- INI rendering of vary_rounds: a float stays a float (1.0 means 100 %, the integer 1 means +-1 round) -----------------------
+def _ini_vary_roundtrip():
+    from pyvc.concrete import load_function
+    from pyvc.runner import Finite  # noqa: F401
+
+    render, info_r = load_function(f"{C}::CryptContext._render_ini_value", {"numeric_types": (int, float)})
+    coerce, info_c = load_function(f"{C}::_coerce_vary_rounds", {})
+    fails, cases = [], 0
+    values = [k / 100 for k in range(0, 101)] + list(range(0, 12)) + [100, 5000]
+    for v in values:
+        for key in ((None, "sha256_crypt", "vary_rounds"), ("admin", "all", "vary_rounds")):
+            cases += 1
+            txt = render(key, v)
+            back = coerce(txt.replace("%%", "%"))
+            same_kind = isinstance(back, float) == isinstance(v, float) or v == 0
+            if not (same_kind and abs(back - v) < 1e-9) and len(fails) < 5:
+                fails.append({"key": f"ini-vary-rounds:{v!r}", "what": f"vary_rounds {v!r} is written as {txt!r}, which loads as {back!r}", "witness": {"value": v, "text": txt, "loaded": repr(back)}})
+    return {"cases": cases, "failures": fails, "samples": [{"value": 1.0, "text": render((None, "x", "vary_rounds"), 1.0)}],
+            "functions": [dict(info_r.describe(), contract="finite:ini-vary-rounds"), dict(info_c.describe(), contract="finite:ini-vary-rounds")]}
+
+
+from pyvc.runner import Finite as _Finite  # noqa: E402
+
+FINITE = [_Finite("ini-vary-rounds-roundtrip", _ini_vary_roundtrip, "every two-decimal fraction 0.00..1.00 and small integers: _render_ini_value then _coerce_vary_rounds gives the same number of the same kind (float = fraction of the default, int = rounds)")]
+
+MUTANTS += [("INI export writes vary_rounds = 1.0 as the integer 1", C, "                value = (f\"{value:.2f}\").rstrip(\"0\") if value else \"0\"", "                value = (f\"{value:.2f}\").rstrip(\"0\").rstrip(\".\") if value else \"0\"", "refute", "ini-vary")]
